@@ -8,8 +8,9 @@ Scenario 'interleave': 2..4 instances with their own programs and fault schedule
 process under a seeded schedule (construction events interleaved with steps).  Each instance's full-state trace must
 equal the trace it produces alone in a pristine process (sim/solo.py) in which no other instance ever exists."""
 import copy
+import os
 
-from sim import gen as G, machine as M, solo
+from sim import env, gen as G, machine as M, solo
 from sim.stream import StreamBoard
 
 PROPERTY = 'C20'
@@ -40,6 +41,12 @@ def plan(tier, seed):
     items += [{'k': 'replay'}] * n_rep
     # long-haul replays: tens of thousands of steps before and after the snapshot (how MUCH was executed before must not matter either)
     items += [{'k': 'longhaul'}] * (8 if tier == 'quick' else 400)
+    # rolling rebuilds: at EVERY tick of a window a brand-new instance is built from the architectural state and memory alone and both take the
+    # same step (hidden per-step state that a rebuilt instance cannot have is exposed at whichever tick it matters, not only at a lucky snapshot)
+    items += [{'k': 'rolling'}] * (240 if tier == 'quick' else 9000)
+    # hash-seed runs: the same case executed in fresh interpreters under other PYTHONHASHSEED values (hash randomisation is the one source of
+    # nondeterminism a pure-Python library can pick up without importing anything)
+    items += [{'k': 'hashseed'}] * (16 if tier == 'quick' else 600)
     return items
 
 
@@ -54,7 +61,7 @@ def _simple_regime(rng, cfg):
         regs = G.random_mpu(rng, cfg['number_of_mpu_regions'])
         if regs:
             regs[0] = (1 | 31 << 1, 0, 3 << 8)
-        sys.update(G.mpu_sys(regs))
+        sys.update(G.mpu_sys(regs, nu=rng.getrandbits(1)))
     return {'cpsr': cpsr, 'sys': sys, 'R': G.random_regfile(rng, cfg), 'spsr': G.random_spsrs(rng, cfg)}
 
 
@@ -218,6 +225,8 @@ def gen(item, rng, tier):
         return {'scenario': 'interleave', 'regime': regime, 'style': style, 'cores': cores, 'actions': acts}
     if item['k'] == 'longhaul':
         return gen_longhaul(rng)
+    if item['k'] == 'hashseed':
+        return gen_hashseed(rng)
     cfg = _cfg(rng)
     nt = rng.choice([60, 120, 200])
     core = _core(rng, cfg, nt)
@@ -227,7 +236,35 @@ def gen(item, rng, tier):
     if rng.random() < 0.15:
         # a data device of 1 MiB or more (it shadows the smaller windows behind it): copies of large memories must be as private as small ones
         core['devices'][2]['end'] = core['devices'][2]['begin'] + rng.choice([1 << 20, 1 << 21])
+    if item['k'] == 'rolling':
+        return {'scenario': 'rolling', 'cores': [core], 's': rng.randrange(0, max(1, nt - 40)), 'k': rng.choice([24, 40, 64])}
     return {'scenario': 'replay', 'cores': [core], 's': s, 'k': k, 'order': order}
+
+
+def gen_hashseed(rng):
+    """one instance whose devices are (partly) declared in the configuration file's memory_list - the construction path a user's own file takes -
+    including a small window listed BEFORE a larger one that covers it (first match must win in every interpreter)"""
+    cfg = _cfg(rng)
+    nt = rng.choice([40, 80])
+    core = _core(rng, cfg, nt)
+    devs = core['devices']
+    # the data page is shadowed by an 'overlay' window listed first, with other contents
+    ov = {'kind': 'ram', 'begin': G.DATA + 0x300, 'end': G.DATA + 0x500}
+    G.set_data(ov, 0, bytes(rng.getrandbits(8) for _ in range(0x200)))
+    cov = {'kind': 'ram', 'begin': G.CODE + 0x40, 'end': G.CODE + 0x80}           # and a piece of the code page by another one
+    devs[:0] = [ov, cov]
+    for d in devs:
+        if d.get('kind', 'ram') == 'ram' and rng.random() < 0.8:
+            d['in_config'] = True
+    ov['in_config'] = cov['in_config'] = True
+    for d in devs:
+        if d['begin'] == G.DATA or d['begin'] == G.CODE:
+            d['in_config'] = True
+    cfg = dict(core['config'])
+    cfg['memory_list'] = [{'mem_type': 'RAM', 'beginning': d['begin'], 'end': d['end']} for d in devs if d.get('in_config')]
+    core['config'] = cfg
+    core['devices'] = [d for d in devs if d.get('in_config')] + [d for d in devs if not d.get('in_config')]
+    return {'scenario': 'hashseed', 'cores': [core], 'hashseeds': rng.sample([1, 2, 3, 4, 5, 6, 7, 8, 9, 10, 11, 12345], 3)}
 
 
 # ------------------------------------------------------------------ execution helpers
@@ -394,7 +431,7 @@ def run_replay(case):
     bA = _fork_board(b)
     # (b) fresh instance rebuilt from architectural state + memory only
     arm = b.cores[0].arm
-    spec2 = M.snapshot_core_spec(arm, core)
+    spec2 = M.snapshot_core_spec(arm, core, arch_only=True)
     for key in ('words', 'force', 'no_poke', 'events'):
         if key in core:
             spec2[key] = core[key]
@@ -478,6 +515,111 @@ def run_replay(case):
     return res
 
 
+def run_rolling(case):
+    core = case['cores'][0]
+    s0, k = case['s'], case['k']
+    res = {'violations': [], 'cover': set(), 'stats': {}, 'ticks': 0}
+    b = _board_for(core)
+    full = []
+    while b.tick < s0 and b.advance():
+        full.append(M.digest_of(sorted(_state(b).items())))
+    n = 0
+    while n < k and not b.cores[0].dead and not res['violations']:
+        arm = b.cores[0].arm
+        spec2 = M.snapshot_core_spec(arm, core, arch_only=True)
+        for key in ('words', 'force', 'no_poke', 'events'):
+            if key in core:
+                spec2[key] = core[key]
+        bB = _board_for(spec2)
+        bB.pos = list(b.pos)
+        bB.tick = b.tick
+        bB.ev_pos = b.ev_pos
+        bB.cores[0].lines.update(b.cores[0].lines)
+        bB.cores[0].arm.is_wait_for_event = arm.is_wait_for_event
+        bB.cores[0].arm.is_wait_for_interrupt = arm.is_wait_for_interrupt
+        prev = type(arm.executed_opcode).__name__ if getattr(arm, 'executed_opcode', None) is not None else '-'
+        a0, aB = b.advance(), bB.advance()
+        if a0 != aB:
+            res['violations'].append({'oracle': 'replay.termination', 'site': 'advance', 'cls': 'length', 'tick': b.tick,
+                                      'detail': 'rolling rebuild: original %s, rebuilt %s at tick %d' % (a0, aB, b.tick)})
+            break
+        if not a0:
+            break
+        st0, stB = _state(b, False), _state(bB, False)
+        op = type(b.cores[0].arm.executed_opcode).__name__
+        if st0 != stB:
+            d = _first_diff(st0, stB)
+            res['violations'].append({'oracle': 'replay.rebuilt_eq', 'site': op, 'cls': _bucket(d), 'tick': b.tick,
+                                      'detail': 'an instance rebuilt from the architectural state before tick %d (previous instruction %s) steps differently (%s): %s' % (
+                                          b.tick, prev, op, ', '.join('%s orig=%r rebuilt=%r' % (x, st0.get(x), stB.get(x)) for x in d[:4]))})
+            break
+        res['cover'].add('rolling|%s|%s' % (prev, op))
+        full.append(M.digest_of(sorted(_state(b).items())))
+        n += 1
+    while b.advance():
+        full.append(M.digest_of(sorted(_state(b).items())))
+    res['ticks'] = b.tick + n
+    for kk, v in b.stats.items():
+        res['stats'][kk] = res['stats'].get(kk, 0) + v
+    res['stats']['fault.snapshot-rebuild'] = n
+    res['digest'] = M.digest_of(full)
+    return res
+
+
+def _hashseed_child(core):
+    t = solo_trace(core)
+    return M.digest_of(t['digests']), t['ticks']
+
+
+def run_hashseed(case):
+    """the in-process trace (PYTHONHASHSEED pinned to 0 by run_check.py) against the same case in fresh interpreters with other hash seeds"""
+    import json
+    import subprocess
+    import sys
+    import tempfile
+    core = case['cores'][0]
+    res = {'violations': [], 'cover': set(), 'stats': {}, 'ticks': 0}
+    ref = solo.solo(_hashseed_child, core)
+    d = M.scratch_dir()
+    with tempfile.NamedTemporaryFile('w', suffix='.json', dir=d, delete=False) as f:
+        json.dump(core, f)
+        path = f.name
+    verif = os.path.dirname(os.path.dirname(os.path.abspath(__file__)))
+    for hs in case['hashseeds']:
+        e = dict(os.environ, PYTHONHASHSEED=str(hs), VERIF_KEEP_HASHSEED='1')
+        p = subprocess.run([sys.executable, '-B', os.path.join(verif, 'run_check.py'), '--trace-core', path], cwd=verif, env=e, capture_output=True, text=True, timeout=300)
+        got = None
+        for line in p.stdout.splitlines():
+            if line.startswith('TRACE-DIGEST '):
+                got = json.loads(line[len('TRACE-DIGEST '):])
+        if got is None:
+            raise RuntimeError('hashseed child produced no digest (exit %s): %s' % (p.returncode, (p.stdout + p.stderr)[-400:]))
+        res['stats']['fault.hashseed-fresh-interpreter'] = res['stats'].get('fault.hashseed-fresh-interpreter', 0) + 1
+        if got != [ref[0], ref[1]]:
+            res['violations'].append({'oracle': 'hashseed.trace_eq', 'site': 'fresh-interpreter', 'cls': 'trace', 'tick': 0,
+                                      'detail': 'the same case gives another trace in a fresh interpreter with PYTHONHASHSEED=%d (digest %s, %d ticks; reference %s, %d ticks)' % (
+                                          hs, got[0], got[1], ref[0], ref[1])})
+            break
+        res['cover'].add('hashseed|%d|%d' % (hs, len(core['config'].get('memory_list', []))))
+    try:
+        os.remove(path)
+    except OSError:
+        pass
+    res['ticks'] = ref[1] * (1 + len(case['hashseeds']))
+    res['digest'] = ref[0]
+    return res
+
+
+def trace_core_main(path):
+    """entry point of the fresh interpreters started by run_hashseed (run_check.py --trace-core FILE)"""
+    import json
+    with open(path) as f:
+        core = json.load(f)
+    dg, ticks = _hashseed_child(core)
+    env.out('TRACE-DIGEST ' + json.dumps([dg, ticks]))
+    return 0
+
+
 def gen_longhaul(rng):
     """a resident loop of 3-8 simple instructions (waits, events, counters, loads/stores, exclusives) stepped by a plain caller"""
     from sim.asm import A, T
@@ -520,7 +662,7 @@ def run_longhaul(case):
             a.registers.branch_to((a.registers.pc_store_value() + a.opcode_len // 8) & 0xFFFFFFFF)      # declared-unimplemented hint (SEV, YIELD): skip it
     for _ in range(case['n1']):
         step(arm)
-    spec2 = M.snapshot_core_spec(arm, core)
+    spec2 = M.snapshot_core_spec(arm, core, arch_only=True)
     armB = M.new_arm(spec2)
     armB.is_wait_for_event, armB.is_wait_for_interrupt = arm.is_wait_for_event, arm.is_wait_for_interrupt
     armA = copy.deepcopy(arm)
@@ -562,7 +704,12 @@ def run(case):
         res['stats']['prints'] = M.env.print_count[0] - p0
         res['interesting'] = bool(res['violations'])
         return res
-    res = run_interleave(case) if case['scenario'] == 'interleave' else run_replay(case)
+    if case['scenario'] == 'rolling':
+        res = run_rolling(case)
+    elif case['scenario'] == 'hashseed':
+        res = run_hashseed(case)
+    else:
+        res = run_interleave(case) if case['scenario'] == 'interleave' else run_replay(case)
     res['stats']['prints'] = M.env.print_count[0] - p0
     res['interesting'] = bool(res['violations'])
     return res
@@ -578,7 +725,9 @@ def sample(case, res):
     if case['scenario'] == 'longhaul':
         return {'scenario': 'longhaul', 'config': c['config'], 'steps_before_snapshot': case['n1'], 'steps_after': case['k'],
                 'code': c['devices'][1]['data']['0'], 'violations': res['violations'][:1]}
-    return {'scenario': 'replay', 'config': c['config'], 'snapshot_tick': case['s'], 'k': case['k'], 'words': ['%08x' % w for w in c['words'][:8]],
+    if case['scenario'] == 'hashseed':
+        return {'scenario': 'hashseed', 'config': c['config'], 'hashseeds': case['hashseeds'], 'n_words': len(c['words']), 'violations': res['violations'][:1]}
+    return {'scenario': case['scenario'], 'config': c['config'], 'snapshot_tick': case['s'], 'k': case['k'], 'words': ['%08x' % w for w in c['words'][:8]],
             'events': [{k: v for k, v in e.items() if k != 'regs'} for e in c['events'][:4]], 'violations': res['violations'][:1]}
 
 
@@ -628,6 +777,14 @@ def shrink(case):
         return
     core = case['cores'][0]
     w = core['words']
+    if case['scenario'] == 'hashseed':
+        for cut in (len(w) // 2, len(w) - 1):
+            if 0 < cut < len(w):
+                yield dict(case, cores=[dict(core, words=w[:cut], events=[e for e in core['events'] if e['tick'] < cut])])
+        if len(case['hashseeds']) > 1:
+            for hs in case['hashseeds']:
+                yield dict(case, hashseeds=[hs])
+        return
     for cut in (case['s'] + case['k'] + 1, case['s'] + 9):
         if cut < len(w):
             c = dict(case)
